@@ -50,7 +50,7 @@ theorem atText_shape (p : Str) (h : isAtText p = true) : p = '@' :: p.drop 1 := 
 theorem unknownPrelude_nil (name : Str) : unknownPrelude name [] = '@' :: name := by
   simp [unknownPrelude]
 
-theorem textOk_parts (p : Str) (h : textOk p = true) : hdrOk p = true ∧ sq p = p ∧ '\n' ∉ p := by
+theorem textOk_parts (P : Char → Bool) (p : Str) (h : textOk P p = true) : hdrOk p = true ∧ nm P p = p ∧ '\n' ∉ p := by
   simp only [textOk, Bool.and_eq_true, beq_iff_eq, Bool.not_eq_true', List.contains_eq_mem, decide_eq_false_iff_not] at h
   exact ⟨h.1.1, h.1.2, h.2⟩
 
@@ -63,7 +63,7 @@ theorem embed_node (st : Style) : ∀ (n : RNode), n.embedOk = true →
   | .block p kids, h => by
     simp only [RNode.embedOk, Bool.and_eq_true, Bool.or_eq_true, Bool.not_eq_true'] at h
     obtain ⟨⟨ht, hk⟩, hv⟩ := h
-    obtain ⟨hp, hs, _⟩ := textOk_parts p ht
+    obtain ⟨hp, hs, _⟩ := textOk_parts Ppre p ht
     obtain ⟨ik1, ik2⟩ := embed_kids st kids hk
     by_cases ha : isAtText p = true
     · have hp' := atText_shape p ha
@@ -95,7 +95,7 @@ theorem embed_node (st : Style) : ∀ (n : RNode), n.embedOk = true →
   | .item t, h => by
     simp only [RNode.embedOk, Bool.and_eq_true, Bool.or_eq_true] at h
     obtain ⟨ht, hv⟩ := h
-    obtain ⟨hp, hs, hnl⟩ := textOk_parts t ht
+    obtain ⟨hp, hs, hnl⟩ := textOk_parts Pitem t ht
     by_cases ha : isAtText t = true
     · have hp' := atText_shape t ha
       simp only [RNode.embed, ha, if_true]
